@@ -25,6 +25,16 @@ CHECKS = {
               "{dr,rd,rr} x auto/cross, all autocorrelation combinations, NaN entries."),
         ref="5.C04", technique="Lean 4 theorems over translator-generated kernels + differential correspondence",
         note="sqrt/division correctly rounded (IEEE); np.nansum skips NaN; glue pinned by AST fingerprint"),
+    "C17": dict(
+        text=("Theorems about a Lean container model (counts B×N×N, weight sums, binning): addition adds counts and is "
+              "rejected exactly when binning (edges or closed side) or patch number differ; scalar multiplication "
+              "scales counts and leaves Landy–Szalay / Davis–Peebles unchanged (s ≠ 0); equality reflexive/symmetric/"
+              "structural; python index normalisation and slice ranges; bins/patches selections (int, slice, stepped "
+              "slice, iteration) yield the corresponding sub-arrays and edges and commute with the generated "
+              "sample_patch_sum kernels. The model is tied to CorrFunc/NormalisedCounts/PatchedCounts/"
+              "PatchedSumWeights/CorrData by differential testing over stratified operation mixes (arrays EXACT)."),
+        ref="5.C17", technique="Lean 4 theorems over a hand-written container model + differential correspondence",
+        note="numpy indexing/broadcasting as documented; the container classes' methods are modelled by hand (tie = correspondence)"),
 }
 
 PENDING = {}
